@@ -18,7 +18,9 @@ RULE = ("rolling_window and expanding_window on point clouds given as 1-D and 2-
         "against the input's shape. 2-D inputs (and the extra coordinate) come in varied memory layouts with the same logical element "
         "sequence - C, Fortran-ordered copies, transposed views of transposed copies, strided windows of larger C / Fortran arrays, slices of "
         "transposed views, easting and northing with different layouts, non-square shapes - and integer-valued lattice clouds also as "
-        "int64 / int32 arrays; the model always receives the logical C-order ravel. Every call is made twice on the same argument objects "
+        "int64 / int32 arrays; easting, northing and the extra coordinate also with DIFFERENT dtypes (int32/int64/float32/float64 in all "
+        "orders) and values needing the wider type (fractions next to integers, 7.5e6 + fractions next to float32), regions also smaller "
+        "than the data extent with both adjust modes; integer coordinates with fractional centres, sizes and steps (C14); the model always receives the logical C-order ravel. Every call is made twice on the same argument objects "
         "(identical result, arguments unchanged). Non-trivial = the call returns windows for a non-empty cloud; distinct = distinct argument tuples.")
 ASSUMPTIONS = [
     "scipy cKDTree.query_ball_point(x, r, p=inf) returns the points with max(|de|, |dn|) <= r (closed ball, eps = 0); modelled by a linear scan",
@@ -280,7 +282,12 @@ def generate(tier, seed):
             spec = [(g[0][:3].tolist(), ke, "float64"), (g[1][:3].tolist(), kn, "float64")]
             cases.append(rolling_case(vd, spec, 1.0, (1.0, 1.5), None, None, 0, "layout-grid"))
             cases.append(expanding_case(vd, spec, (-2.0, 7.0), [2.0, 3.0, 0.0], "layout-grid"))
-    # integer-valued lattice clouds passed with integer dtypes (1-D and 2-D, all layouts)
+    # integer-dtype coordinates with fractional window centres, sizes and steps; regions given (also smaller than the
+    # data extent, both adjust modes) or inferred
+    def few_windows(width, height, size, sp):
+        spn, spe = (sp, sp) if np.isscalar(sp) else sp
+        return ((width - size) / spe + 1.5) * ((height - size) / spn + 1.5) <= 24
+
     for i in range(nroll // 2):
         m = rnd.choice([4, 6, 6, 8, 10, 12, 12, 15, 18])
         xs = [rnd.randint(-4, 4) for _ in range(m - 2)] + [-4, 4]
@@ -289,17 +296,47 @@ def generate(tier, seed):
         arrs = [xs, ys] + ([list(range(m))] if i % 3 == 0 else [])
         spec = layouts.arrange(rnd, arrs, dt=dt, p2d=0.7)
         if i % 2 == 0:
-            size = rnd.choice([1.0, 2.0, 3.0, 6.0])
-            if rnd.random() < 0.5:
-                sp, sh, adj = rnd.choice([1.0, 1.5, 2.0, (2.0, 3.0)]), None, rnd.choice([0, 1])
+            reg = rnd.choice([None, (-4.0, 4.0, -3.0, 3.0), (-3.0, 3.0, -2.0, 2.0), (-2.5, 3.25, -1.5, 2.75)])
+            width, height = (8.0, 6.0) if reg is None else (reg[1] - reg[0], reg[3] - reg[2])
+            size = rnd.choice([0.5, 1.0, 1.5, 2.0, 2.5, 3.0, min(width, height)])
+            if rnd.random() < 0.6:
+                sp, sh, adj = rnd.choice([0.75, 1.0, 1.25, 1.5, 2.0, (2.0, 3.0), (1.25, 0.5), (0.75, 2.5)]), None, rnd.choice([0, 1])
+                if not few_windows(width, height, size, sp):
+                    sp = 2.25
             else:
                 sp, sh, adj = None, rnd.choice([(2, 3), (3, 2), (2, 2), (3, 4)]), 0
-            reg = (-4.0, 4.0, -3.0, 3.0) if rnd.random() < 0.5 else None
             cases.append(rolling_case(vd, spec, size, sp, sh, reg, adj, "integer-dtype"))
         else:
-            center = (float(rnd.randint(-3, 3)), float(rnd.randint(-2, 2)))
-            sizes = [rnd.choice([0.0, 1.0, 2.0, 3.0, 5.0, 9.0]) for _ in range(rnd.randint(1, 4))]
+            center = (rnd.randint(-3, 3) + rnd.choice([0.0, 0.5, 0.25, -0.5]), rnd.randint(-2, 2) + rnd.choice([0.0, 0.5, 0.75]))
+            sizes = [rnd.choice([0.0, 0.5, 1.0, 1.5, 2.0, 3.0, 3.5, 5.0, 9.0]) for _ in range(rnd.randint(1, 4))]
             cases.append(expanding_case(vd, spec, center, sizes, "integer-dtype"))
+    ig = np.meshgrid(np.arange(11), np.arange(9))
+    cases.append(expanding_case(vd, layouts.from_arrays(ig), (2.5, 3.5), [1.0, 3.0, 5.0], "integer-dtype"))
+    cases.append(expanding_case(vd, layouts.from_arrays([a.astype("int32") for a in ig]), (7.25, 1.5), [2.5, 0.5], "integer-dtype"))
+    cases.append(rolling_case(vd, layouts.from_arrays([a[:6, :7] for a in ig]), 1.5, (1.25, 0.75), None, (0.5, 5.5, 1.0, 4.0), 1, "integer-dtype"))
+    # easting, northing (and the extra coordinate) of different dtypes, values needing the wider one
+    for i in range(nroll // 2):
+        m = rnd.choice([4, 6, 6, 8, 10, 12, 12, 15, 18])
+        we, hn = rnd.choice([4, 6, 8]), rnd.choice([3, 5, 6])
+        arrs, dts, be, bn = layouts.mixed_axes(rnd, m, we, hn, spill=rnd.choice([0.0, 0.25]))
+        keep = 3 if i % 2 == 0 else 2
+        if i % 2 == 0:
+            inferred = "float32" not in dts[:2] and rnd.random() < 0.3
+            if inferred:   # the inferred region must not be smaller than the window: pin two corners
+                arrs[0][0], arrs[0][1], arrs[1][0], arrs[1][1] = be, be + we, bn, bn + hn
+            reg = None if inferred else (be, be + we, bn, bn + hn)
+            size = rnd.choice([0.5, 1.0, 1.5, 2.0, 3.0])
+            if rnd.random() < 0.6:
+                sp, sh, adj = rnd.choice([0.75, 1.0, 1.5, 2.0, (2.0, 3.0), (1.25, 0.5)]), None, rnd.choice([0, 1])
+                if not few_windows(we, hn, size, sp):
+                    sp = 2.25
+            else:
+                sp, sh, adj = None, rnd.choice([(2, 3), (3, 2), (2, 2), (3, 4)]), 0
+            cases.append(rolling_case(vd, layouts.arrange(rnd, arrs[:keep], dt=dts[:keep]), size, sp, sh, reg, adj, "mixed-dtype"))
+        else:
+            center = (be + rnd.randint(0, we * 4) / 4, bn + rnd.randint(0, hn * 4) / 4)
+            sizes = [rnd.choice([0.0, 0.5, 1.0, 1.5, 2.0, 3.0, 5.0, 9.0]) for _ in range(rnd.randint(1, 4))]
+            cases.append(expanding_case(vd, layouts.arrange(rnd, arrs[:keep], dt=dts[:keep]), center, sizes, "mixed-dtype"))
     # expanding windows
     nexp = 60 if tier == "quick" else 700
     for i in range(nexp):
